@@ -93,7 +93,7 @@ def extra_cases(ctx):
     alphabet = [["ch", n] for n in ("a", "b", "sp", "pct", "bsl", "dq", "bt", "lb", "rb", "nl", "tab", "c233", "c26085", "n", "s", "t", "d", "v",
                                     "c48", "c58", "c47", "c42", "c36", "c35", "c39", "c60", "c62")] + \
                [["esc", e] for e in ("n", "t", "bsl", "dq")] + [["bres", b] for b in ("lb", "rb")] + [["hole", v] for v in ("x", "y", "z")] * 2
-    nrand = 4000 if ctx.tier == "thorough" else 500
+    nrand = 20000 if ctx.tier == "thorough" else 500
     for _ in range(nrand):
         form = rng.choice(("str", "raw", "istr", "iraw"))
         ok = [s for s in alphabet if legal(form, s)]
